@@ -180,6 +180,14 @@ def translate(ctx, chk, ref):
                         d = ev[3].fields.get('data')
                         stored.append(d.known if isinstance(d, StrV) else None)
                 eng.event_hook = ehook
+                measured = []
+
+                def whook(kind, st_, fr_, bi_, *a, measured=measured):
+                    if kind == 'width' and fr_ is not None and (fr_.func == draw or fr_.func in prog.closures_of.get(draw, [])):
+                        ch = a[0]
+                        measured.append(ch.known if isinstance(ch, CharV) else None)
+                    return None
+                eng.hooks = [whook]
                 eng.entry_name = 'draw(%r) active=G%d' % (chr(cp), active)
                 label = 'U+%04X active G%d (G0=%s G1=%s)' % (cp, active, g0n, g1n)
                 try:
@@ -193,9 +201,14 @@ def translate(ctx, chk, ref):
                 unknown = sum(1 for x in stored if x is None)
                 n += 1
                 ok = bool(res) and seen == [chr(want)]
+                # the width that decides how many cells are used is the width of the translated character
+                wrong_w = sorted({x if x is not None else '?' for x in measured if x != chr(want)})
+                if wrong_w:
+                    ok = False
                 chk.instance('R-TRANSLATE', short(draw), label, ok,
                              detail='cells stored hold %s (%d with text that is not a constant: combining paths), documented U+%04X' % (
                                  ['U+%04X' % ord(x) if len(x) == 1 else repr(x) for x in seen], unknown, want), span=body.span,
-                             what='drawing code point U+%04X with G%d active stores %s, documented U+%04X' % (
+                             what=('drawing code point U+%04X with G%d active stores %s, documented U+%04X' % (
                                  cp, active, ['U+%04X' % ord(x) if len(x) == 1 else repr(x) for x in seen] or 'nothing decidable', want))
+                             + ('; the cell width is taken from %s instead of the translated character' % wrong_w if wrong_w else ''))
     chk.floor('translation cases', n, 40)
